@@ -1,5 +1,5 @@
 (* Main.v — request dispatcher of the extracted model (one request per line). *)
-From ArchSim Require Import Model.Base Model.Mem Model.Cache Model.Fmt Model.RV Model.Single Model.Sx.
+From ArchSim Require Import Model.Base Model.Mem Model.Cache Model.Fmt Model.RV Model.Single Model.Toy Model.Sx.
 Open Scope Z_scope.
 
 (* op 1: single-cycle trace.  (1 state nsteps) -> observations after every step, then a
@@ -16,8 +16,36 @@ Fixpoint single_trace (fuel : nat) (s : st) (acc : list sx) : list sx :=
         end
   end.
 
+(* TOY: apply an op list, observing (outcome, state) after every op.
+   ops: 0 step | 1 first half | 2 second half | 3 single | (4 fuel) run | (5 tokens) load *)
+Definition toy_apply (s : tstate) (op : sx) : tstate * sx :=
+  match op with
+  | Zx 0 => let '(s', o) := toy_step s in (s', Lx [sx_toutcome o; sx_bool (negb (toy_done s'))])
+  | Zx 1 => let '(s', o) := first_half s in (s', Lx [sx_toutcome o])
+  | Zx 2 => let '(s', o) := second_half s in (s', Lx [sx_toutcome o])
+  | Zx 3 => let '(s', o) := toy_single s in (s', Lx [sx_toutcome o])
+  | Lx (Zx 4 :: f :: _) =>
+      let '(s', o, fin) := toy_run (Z.to_nat (dz f)) s in (s', Lx [sx_toutcome o; sx_bool fin])
+  | Lx (Zx 5 :: toks :: _) =>
+      let '(s', e) := toy_load s (map dtline (dl toks)) in (s', Lx [sx_opt sx_perr e])
+  | _ => (s, Lx [])
+  end.
+
+Fixpoint toy_trace (ops : list sx) (s : tstate) (acc : list sx) : list sx :=
+  match ops with
+  | [] => rev acc
+  | op :: t => let '(s', o) := toy_apply s op in toy_trace t s' (Lx [o; sx_tstate s'] :: acc)
+  end.
+
 Definition dispatch (req : sx) : sx :=
   let op := dz (dnth req 0) in
   if op =? 1 then
     Lx (single_trace (Z.to_nat (dz (dnth req 2))) (dst (dnth req 1)) [sx_st (dst (dnth req 1))])
+  else if op =? 10 then
+    let s0 := dtstate (dnth req 1) in
+    Lx (toy_trace (dl (dnth req 2)) s0 [Lx [Lx []; sx_tstate s0]])
+  else if op =? 12 then
+    let w := dz (dnth req 1) in
+    let i := toy_decode w in
+    Lx [sx_tinstr i; Zx (toy_encode i); sx_str (tinstr_repr i); Zx (op_code_value i); Zx (address_section_value i)]
   else Lx [Zx (-1)].
